@@ -174,7 +174,8 @@ class Ctx:
             prev["count"] += 1
             return
         bd = hashlib.blake2b(v.bucket.encode(), digest_size=5).hexdigest()
-        path = os.path.join(VERIF, "replays", f"{self.prop}-{bd}-w{self.worker}.json")
+        rdir = os.environ.get("CGV_REPLAY_DIR") or os.path.join(VERIF, "replays")
+        path = os.path.join(rdir, f"{self.prop}-{bd}-w{self.worker}.json")
         os.makedirs(os.path.dirname(path), exist_ok=True)
         doc = {
             "property": self.prop,
